@@ -7,12 +7,20 @@ from ..common import rat, unrat
 
 PROP = "C15"
 RULE = ("seeded random task lists per entry point (averaging / exact / split / nonmeasured / bind): interleavings of "
-        "constant-operator, zero-shot and measurable tasks, Ising operators with dyadic (sometimes complex) "
-        "coefficients, circuits of X/Y/Z/S/T layers (basis states) and H layers (sampled), shots 1-50, plus a "
-        "malformed stream (None / negative shots, non-Ising measured operator, operator wider than the circuit, "
-        "unbound symbols); non-trivial: an averaging or split list containing all three task kinds, an exact list "
-        "with >=2 tasks one of which has an X/Y term, a bind list with >=2 tasks and pairwise different maps (or a single broadcast map), a "
-        "nonmeasured list with both a constant and a zero-shot task; distinct = distinct canonical JSON of the case")
+        "constant-operator, zero-shot and measurable tasks, Ising operators with dyadic (sometimes complex, zero, tiny "
+        "< 1e-8 or 2^30-spread) coefficients given as float / numpy / int, circuits of X/Y/Z/S/T layers (basis states) "
+        "and H layers (sampled), shots 1-50 (1-3 favoured); SIBLING lists grown from one task by changing exactly one "
+        "component (a coefficient by 2^-30, one qubit, one gate, the shot count, the width, term order, term vs sum) with "
+        "equal descriptions optionally built as ONE object; lists of 65-140 tasks; registers of 9-12, 13-22 and 60-70 "
+        "qubits (stub runner); basis states through CNOT/SWAP/CZ and exact values of entangled / rotated states "
+        "(oracle only); parameter-scan pipelines bind -> estimate -> exact on one simulator (oracle only); sessions of "
+        "2-4 calls on the same simulator and objects differing in one component; calls repeated after the caller "
+        "overwrote the first results; plus a malformed stream (None / negative shots, non-Ising measured operator, "
+        "operator wider than the circuit, unbound symbols); non-trivial: an averaging or split list containing all "
+        "three task kinds (or >=3 tasks with shared objects / a wide register), an exact list with >=2 tasks one of "
+        "which has an X/Y term, a bind or pipeline list with >=2 tasks and pairwise different maps (or a single "
+        "broadcast map), a nonmeasured list with both a constant and a zero-shot task, a session of >=2 calls one of "
+        "them on >=2 tasks; distinct = distinct canonical JSON of the case")
 TRUSTED = [
     "the circuit runner returns one Measurements object per submitted circuit, in order (CircuitRunner protocol): "
     "hypothesis `hlaw` of result_at_index / measured_value_weighted, field RunnerLaw.onePer",
@@ -25,7 +33,11 @@ TRUSTED = [
     "with the real code at 1e-9",
     "Circuit.bind is a parameter of bind_tasks_pointwise / bind_tasks_broadcast (its meaning is C06); the driver instantiates it with "
     "substitution into linear gate parameters",
-    "float arithmetic is exact on the dyadic coefficients used with basis states; sampled means are compared at 1e-9",
+    "float arithmetic is exact on the dyadic coefficients used with basis states (all sums stay below 50 significant "
+    "bits); sampled means are compared at 1e-9",
+    "oracle-only case kinds (no model answer): circuits with CNOT/CZ/SWAP or numeric rotations, and the pipeline "
+    "bind -> estimate -> exact with rotations by integer multiples of pi (the wrong outcome has probability < 1e-30 "
+    "and is taken never to be sampled)",
 ]
 ASSUMPTIONS = [
     "coefficients are Gaussian rationals; measured values keep the real part only (expectation_values_to_real), "
@@ -37,6 +49,8 @@ ASSUMPTIONS = [
 TOL = Fraction(1, 10 ** 9)
 FIXED = ("X", "Y", "Z", "H", "S", "T", "I")
 PARAM = ("RX", "RY", "RZ", "PHASE")
+TWOQ = ("CNOT", "CZ", "SWAP")  # oracle-only circuits (the model's circuits are products of one-qubit gates)
+SCRIBBLE = 77.25  # written over every array of a returned result before the same call is made again
 
 
 # ----------------------------------------------------------------------------------------------- building
@@ -51,40 +65,97 @@ def _lib():
     return sympy, C, EstimationTask, E, PauliSum, PauliTerm, SymbolicSimulator
 
 
-def _coeff(c):
+def _coeff(c, num="py"):
+    """the coefficient as the number type asked for: Python float/complex, numpy scalar, or int when integral"""
     re, im = unrat(c[0]), unrat(c[1])
+    if num == "np":
+        import numpy as np
+        return np.float64(float(re)) if im == 0 else np.complex128(complex(float(re), float(im)))
+    if num == "int" and im == 0 and re.denominator == 1:
+        return int(re)
     return float(re) if im == 0 else complex(float(re), float(im))
+
+
+def _shots(t):
+    n = t["shots"]
+    if t.get("num") == "np" and isinstance(n, int):
+        import numpy as np
+        return np.int64(n)
+    return n
 
 
 def _build_op(t):
     _, _, _, _, PauliSum, PauliTerm, _ = _lib()
-    terms = [PauliTerm({int(q): p for q, p in term["ops"]}, _coeff(term["c"])) for term in t["op"]]
+    terms = [PauliTerm({int(q): p for q, p in term["ops"]}, _coeff(term["c"], t.get("num", "py"))) for term in t["op"]]
     if t.get("term"):
         assert len(terms) == 1
         return terms[0]
     return PauliSum(terms)
 
 
-def _build_param(p):
+def _build_param(p, pi=False):
     sympy = _lib()[0]
+    unit = cmath.pi if pi else 1.0
     if not p["terms"]:
-        return float(unrat(p["const"]))
-    e = sympy.Float(float(unrat(p["const"]))) if unrat(p["const"]) != 0 else sympy.Integer(0)
+        return float(unrat(p["const"])) * unit
+    e = sympy.Float(float(unrat(p["const"])) * unit) if unrat(p["const"]) != 0 else sympy.Integer(0)
     for s, a in p["terms"]:
-        e = e + float(unrat(a)) * sympy.Symbol(s)
+        a = unrat(a)
+        e = e + (int(a) if pi and a.denominator == 1 else float(a)) * sympy.Symbol(s)
     return e
 
 
-def _build_circuit(c):
+def _build_circuit(c, pi=False):
     C = _lib()[1]
     ops = []
     for g in c["gates"]:
         ctor = getattr(C, g[0])
+        qs = g[1] if isinstance(g[1], list) else [g[1]]
         if len(g) > 2 and g[2] is not None:
-            ops.append(ctor(_build_param(g[2]))(g[1]))
+            ops.append(ctor(_build_param(g[2], pi))(*qs))
         else:
-            ops.append(ctor(g[1]))
+            ops.append(ctor(*qs))
     return C.Circuit(ops, n_qubits=c["n"])
+
+
+class _Pool:
+    """builds the library objects of a case; `share` says which equal descriptions become ONE object:
+    'circuits' / 'ops' / 'both' / 'tasks' (= both + equal tasks are one EstimationTask); the same dict object is
+    always built once"""
+
+    def __init__(self, share=None, pi=False):
+        self.share, self.pi = share or "none", pi
+        self.circ, self.ops, self.tasks, self.by_id = {}, {}, {}, {}
+
+    def circuit(self, c):
+        if self.share in ("circuits", "both", "tasks"):
+            key = common.canon(c)
+            if key not in self.circ:
+                self.circ[key] = _build_circuit(c, self.pi)
+            return self.circ[key]
+        return _build_circuit(c, self.pi)
+
+    def op(self, t):
+        if self.share in ("ops", "both", "tasks"):
+            key = common.canon([t["op"], bool(t.get("term")), t.get("num", "py")])
+            if key not in self.ops:
+                self.ops[key] = _build_op(t)
+            return self.ops[key]
+        return _build_op(t)
+
+    def task(self, t):
+        if id(t) in self.by_id:
+            return self.by_id[id(t)][1]
+        EstimationTask = _lib()[2]
+        if self.share == "tasks":
+            key = common.canon(t)
+            if key not in self.tasks:
+                self.tasks[key] = EstimationTask(self.op(t), self.circuit(t["circuit"]), _shots(t))
+            obj = self.tasks[key]
+        else:
+            obj = EstimationTask(self.op(t), self.circuit(t["circuit"]), _shots(t))
+        self.by_id[id(t)] = (t, obj)  # keeps t alive, so the id stays unique
+        return obj
 
 
 def _build_task(t, circuits=None):
@@ -92,12 +163,11 @@ def _build_task(t, circuits=None):
     if circuits is None:
         circ = _build_circuit(t["circuit"])
     else:
-        # tasks with the same circuit spec share ONE Circuit object (as in a parameter scan / gradient)
         key = common.canon(t["circuit"])
         if key not in circuits:
             circuits[key] = _build_circuit(t["circuit"])
         circ = circuits[key]
-    return EstimationTask(_build_op(t), circ, t["shots"])
+    return EstimationTask(_build_op(t), circ, _shots(t))
 
 
 def _canon_param(p):
@@ -109,14 +179,48 @@ def _canon_param(p):
     for s in syms:  # the parameters used here are linear forms
         a = Fraction(float(e.coeff(s)))
         if a != 0:
-            terms.append([str(s), rat(a)])
+            terms.append([_sym_name(s), rat(a)])
     return {"const": rat(const), "terms": sorted(terms)}
+
+
+def _sym_name(s):
+    """plain symbols by name; a symbol carrying assumptions or a Dummy is a DIFFERENT symbol and gets a different name"""
+    sympy = _lib()[0]
+    if isinstance(s, sympy.Dummy):
+        return str(s.name) + "|dummy"
+    if s != sympy.Symbol(s.name):
+        return str(s.name) + "|real"
+    return str(s.name)
+
+
+def _mk_symbol(name):
+    sympy = _lib()[0]
+    if name.endswith("|dummy"):
+        return sympy.Dummy(name[:-6])
+    if name.endswith("|real"):
+        return sympy.Symbol(name[:-5], real=True)
+    return sympy.Symbol(name)
+
+
+def _mk_value(v, mapnum, pi=False):
+    sympy = _lib()[0]
+    f = unrat(v)
+    if pi:
+        return float(f) * cmath.pi
+    if mapnum == "int" and f.denominator == 1:
+        return int(f)
+    if mapnum == "sympy":
+        return sympy.Rational(f.numerator, f.denominator)
+    if mapnum == "sympyfloat":
+        return sympy.Float(float(f))
+    return float(f)
 
 
 def _canon_circuit(circ):
     gates = []
     for op in circ.operations:
-        g = [op.gate.name, int(op.qubit_indices[0])]
+        qs = [int(q) for q in op.qubit_indices]
+        g = [op.gate.name, qs[0] if len(qs) == 1 else qs]
         g.append(_canon_param(op.params[0]) if op.params else None)
         gates.append(g)
     return {"n": int(circ.n_qubits), "gates": gates}
@@ -137,16 +241,43 @@ def _cval(v):
 
 
 class _Recorder:
-    """a CircuitRunner that forwards to the real simulator and remembers what it returned"""
+    """a CircuitRunner that forwards to the real runner and remembers every run: which circuit object, how many
+    samples were asked for, what came back"""
 
     def __init__(self, inner):
-        self.inner, self.recorded, self.requests = inner, [], None
+        self.inner = inner
+        self.reset()
+
+    def reset(self):
+        self.recorded, self.requests, self.runs = [], None, []
+
+    @staticmethod
+    def _bits(m):
+        return [[int(b) for b in bits] for bits in m.bitstrings]
 
     def run_batch_and_measure(self, circuits, n_samples):
-        self.requests = list(n_samples) if not isinstance(n_samples, int) else n_samples
+        self.requests = ([int(n) if n is not None else None for n in n_samples]
+                         if not isinstance(n_samples, int) else int(n_samples))
         res = self.inner.run_batch_and_measure(circuits, n_samples)
-        self.recorded = [[[int(b) for b in bits] for bits in m.bitstrings] for m in res]
+        seq = circuits if isinstance(circuits, (list, tuple)) else None
+        for k, m in enumerate(res):
+            bits = self._bits(m)
+            self.recorded.append(bits)
+            n = self.requests if isinstance(self.requests, int) else (self.requests[k] if k < len(self.requests) else None)
+            self.runs.append((seq[k] if seq is not None and k < len(seq) else None, n, bits))
         return res
+
+    def run_and_measure(self, circuit, n_samples):
+        m = self.inner.run_and_measure(circuit, n_samples)
+        bits = self._bits(m)
+        self.recorded.append(bits)
+        self.runs.append((circuit, int(n_samples), bits))
+        return m
+
+    def runs_for(self, tasks):
+        """JSON form of the runs: for each, the positions of the tasks whose circuit IS the circuit that was run"""
+        return [{"tasks": [i for i, t in enumerate(tasks) if t.circuit is circ], "n": n, "shots": bits}
+                for circ, n, bits in self.runs]
 
 
 _EXC = {ValueError: "err:value", TypeError: "err:type", IndexError: "err:index", RuntimeError: "err:runtime"}
@@ -167,7 +298,7 @@ def _stub_runner():
                     bits[op.qubit_indices[0]] ^= 1
                 elif op.gate.name not in ("Z", "I"):
                     raise ValueError("stub runner executes X/Y/Z/I circuits only")
-            return Measurements([tuple(bits)] * n_samples)
+            return Measurements([tuple(bits)] * int(n_samples))
     return Stub()
 
 
@@ -196,7 +327,12 @@ def _has_free(c):
 
 
 def _fixed_only(c):
-    return all(g[0] in FIXED and (len(g) < 3 or g[2] is None) for g in c["gates"])
+    """only parameter-free gates: the one-qubit ones the model knows, or CNOT / CZ / SWAP (oracle-only cases)"""
+    return all((g[0] in FIXED or g[0] in TWOQ) and (len(g) < 3 or g[2] is None) for g in c["gates"])
+
+
+def _has_twoq(c):
+    return any(g[0] in TWOQ for g in c["gates"])
 
 
 def _kind(t):
@@ -212,13 +348,17 @@ def _kind(t):
 
 
 def _prepared_bits(c):
-    """the basis state an X/Y/Z/S/T circuit prepares (None if an H makes it a superposition)"""
+    """the basis state an X/Y/Z/S/T (+ CNOT/CZ/SWAP) circuit prepares (None if an H makes it a superposition)"""
     bits = [0] * c["n"]
     for g in c["gates"]:
         if g[0] == "H":
             return None
         if g[0] in ("X", "Y"):
             bits[g[1]] ^= 1
+        elif g[0] == "CNOT":
+            bits[g[1][1]] ^= bits[g[1][0]]
+        elif g[0] == "SWAP":
+            bits[g[1][0]], bits[g[1][1]] = bits[g[1][1]], bits[g[1][0]]
     return bits
 
 
@@ -273,49 +413,148 @@ def corpus():
         {"kind": "bind", "tasks": [
             {"op": [_term(1, [(0, "Z")])], "circuit": _circ(1, [["RX", 0, {"const": 0, "terms": [["t", 1]]}]]), "shots": 3}] * 3,
          "maps": [[["t", 1]]]},
+        # --- hardening corpus: one fixed representative per blind-spot class (generate() draws many more)
+        # two zero-shot tasks and the same constant twice, called twice with the first results overwritten in between
+        {"kind": "averaging", "seed": 8, "again": True, "share": "ops", "tasks": [
+            dict(meas, shots=0), {"op": [_term(5, [])], "circuit": c3, "shots": 2}, dict(meas, shots=0),
+            {"op": [_term(5, [])], "circuit": c3, "shots": 2}, meas]},
+        # one circuit object, operators equal within every tolerance (2^-30 apart), second in another term order
+        {"kind": "averaging", "seed": 9, "share": "both", "tasks": [
+            {"op": [_term(2, [(0, "Z")]), _term(3, [(1, "Z")])], "circuit": c3, "shots": 4},
+            {"op": [_term(Fraction(2) + Fraction(1, 2 ** 30), [(0, "Z")]), _term(3, [(1, "Z")])], "circuit": c3, "shots": 4},
+            {"op": [_term(3, [(1, "Z")]), _term(2, [(0, "Z")])], "circuit": c3, "shots": 4}]},
+        # coefficients below 1e-8, a zero coefficient, a coefficient 2^30 times its neighbour, a tiny imaginary constant
+        {"kind": "averaging", "seed": 10, "tasks": [
+            {"op": [_term(Fraction(3, 2 ** 40), [(0, "Z")]), _term(0, [(1, "Z")]), _term(Fraction(-5, 2 ** 40), [])], "circuit": c3, "shots": 1},
+            {"op": [_term(2 ** 30, [(0, "Z")]), _term("1/8", [(2, "Z")])], "circuit": c3, "shots": 2},
+            {"op": [_term(2, [], Fraction(1, 2 ** 50))], "circuit": c3, "shots": None},
+            {"op": [_term(0, [(2, "Z")])], "term": True, "circuit": c3, "shots": 3}]},
+        # numpy shot counts (a numpy zero is a zero-shot task) and numpy / int coefficients
+        {"kind": "averaging", "seed": 11, "tasks": [
+            dict(meas, shots=0, num="np"), dict(meas, num="np"), dict(meas, num="int"),
+            {"op": [_term(2, [])], "circuit": c3, "shots": 0, "num": "np"}]},
+        {"kind": "split", "again": True, "tasks": [dict(meas, num="np"), dict(meas, shots=0, num="np"), meas]},
+        {"kind": "split", "again": True, "tasks": [meas, dict(meas, shots=2)]},
+        {"kind": "nonmeasured", "again": True, "share": "ops", "tasks": [
+            {"op": [_term(2, [])], "circuit": c3, "shots": 1}, dict(meas, shots=0), {"op": [_term(2, [])], "circuit": c3, "shots": 1},
+            dict(meas, shots=0)]},
+        # basis state through CNOT / SWAP (oracle only)
+        {"kind": "averaging", "seed": 12, "nomodel": True, "tasks": [
+            {"op": [_term(2, [(0, "Z")]), _term(3, [(1, "Z"), (2, "Z")])],
+             "circuit": _circ(3, [["X", 0], ["CNOT", [0, 1]], ["SWAP", [1, 2]], ["CZ", [0, 2]]]), "shots": 3}]},
+        # entangled state: <Z0 Z1> is not <Z0><Z1>; one rotation angle differs between the two tasks
+        {"kind": "exact", "nomodel": True, "tasks": [
+            {"op": [_term(2, [(0, "Z"), (1, "Z")]), _term(1, [(0, "X"), (1, "X")])],
+             "circuit": _circ(2, [["H", 0], ["CNOT", [0, 1]], ["RX", 1, {"const": "1/2", "terms": []}]]), "shots": None},
+            {"op": [_term(2, [(0, "Z"), (1, "Z")]), _term(1, [(0, "X"), (1, "X")])],
+             "circuit": _circ(2, [["H", 0], ["CNOT", [0, 1]], ["RX", 1, {"const": "3/4", "terms": []}]]), "shots": None}]},
+        # a map keyed by a symbol with assumptions / a Dummy of the same name binds nothing; the caller's one-map list
+        # stays a one-map list; number types of the values
+        {"kind": "bind", "again": True, "mapnum": "sympy", "tasks": [
+            {"op": [_term(1, [(0, "Z")])], "circuit": _circ(1, [["RX", 0, {"const": 0, "terms": [["a", 1], ["b", 2]]}]]), "shots": 3}] * 2,
+         "maps": [[["a|real", 1], ["b|dummy", 2], ["b", "1/4"]]]},
+        # parameter scan on ONE circuit object; the maps hold the same values assigned to different symbols
+        {"kind": "bind", "share_circuits": True, "tasks": [
+            {"op": [_term(1, [(0, "Z")])], "circuit": _circ(1, [["RX", 0, {"const": 0, "terms": [["a", 1], ["b", 2]]}]]), "shots": 3}] * 3,
+         "maps": [[["a", 1], ["b", 2]], [["a", 2], ["b", 1]], [["b", 1], ["a", 2]]]},
+        {"kind": "pipeline", "seed": 13, "pi": True, "share": "circuits", "tasks": [
+            {"op": [_term(2, [(0, "Z")]), _term(3, [(0, "Z"), (1, "Z")])],
+             "circuit": _circ(2, [["RX", 0, {"const": 0, "terms": [["a", 1]]}], ["RY", 1, {"const": 1, "terms": [["b", 1]]}]]), "shots": 3}] * 3,
+         "maps": [[["a", 1], ["b", 0]], [["a", 0], ["b", 1]], [["a", 2], ["b", 2]]]},
+        # the same simulator, the same task objects: estimate, change one gate, estimate again, then exact values
+        {"kind": "session", "seed": 14, "share": "both", "steps": [
+            {"kind": "averaging", "tasks": [meas, dict(meas, shots=0)]},
+            {"kind": "averaging", "again": True, "tasks": [dict(meas, circuit=_circ(3, [["X", 1], ["X", 2]])), dict(meas, shots=0)]},
+            {"kind": "exact", "tasks": [meas, dict(meas, circuit=_circ(3, [["X", 1], ["X", 2]]))]}]},
+        # 70 measured tasks (longer than a 64-circuit submission), values follow the position
+        {"kind": "averaging", "seed": 15, "share": "circuits", "tasks": [
+            {"op": [_term(i + 1, [(i % 2, "Z")])], "circuit": _circ(2, [["X", 1]]), "shots": 1 + i % 3} for i in range(70)]},
+        # widths 9..12 and >= 64 (stub runner): mirrored supports
+        {"kind": "averaging", "seed": 0, "runner": "stub", "tasks": [
+            {"op": [_term(2, [(1, "Z")]), _term(3, [(8, "Z")]), _term(5, [(0, "Z"), (9, "Z")])], "circuit": _circ(10, [["X", 1], ["X", 9]]), "shots": 2},
+            {"op": [_term(2, [(1, "Z")]), _term(3, [(64, "Z")]), _term(5, [(0, "Z"), (65, "Z")])], "circuit": _circ(66, [["X", 1], ["X", 65]]), "shots": 2}]},
     ]
 
 
-def _rand_coeff(rng, allow_complex=True):
-    re = Fraction(rng.choice([k for k in range(-32, 33) if k != 0]), 8)
-    im = Fraction(rng.randrange(-16, 17), 8) if allow_complex and rng.random() < 0.12 else Fraction(0)
+# coefficient profiles of one operator: (scales a term may take (coefficient = k/8 * 2**scale), description)
+#   tiny       every coefficient below the absolute tolerance of np.isclose / np.allclose (1e-8)
+#   tiny+      ordinary coefficients next to tiny ones
+#   huge+      ordinary coefficients next to ones 2**30 times larger (hidden by a relative tolerance of 1e-5)
+# All sums of <= 6 such dyadic numbers are exact in double precision (< 50 significant bits).
+_PROFILES = {"n": [0], "tiny": [-37], "tiny+": [0, -37], "huge+": [0, 30]}
+
+
+def _pick_profile(rng, exact_only=True):
+    r = rng.random()
+    if not exact_only or r < 0.7:
+        return "n"
+    return "tiny" if r < 0.8 else ("tiny+" if r < 0.9 else "huge+")
+
+
+def _rand_coeff(rng, allow_complex=True, profile="n", zeros=False):
+    if zeros and rng.random() < 0.06:
+        return Fraction(0), Fraction(0)  # a zero coefficient is a legal coefficient
+    sc = Fraction(2) ** rng.choice(_PROFILES[profile])
+    re = Fraction(rng.choice([k for k in range(-32, 33) if k != 0]), 8) * sc
+    im = Fraction(0)
+    if allow_complex and rng.random() < 0.12:
+        im = Fraction(rng.randrange(-16, 17), 8) * (sc if rng.random() < 0.6 else Fraction(1, 2 ** 47))
     return re, im
 
 
-def _rand_ising_op(rng, n, wide=False):
+def _hash_twin(c):
+    """another coefficient with the same Python hash: hash(-1) == hash(-2), and hash(x) == hash(x * 2**61) for every
+    float (hashes are taken modulo 2**61 - 1); both are exact doubles"""
+    c = Fraction(c)
+    if c == -1:
+        return Fraction(-2)
+    if c == -2:
+        return Fraction(-1)
+    return c * 2 ** 61 if abs(c) < 2 ** 40 else c / 2 ** 61
+
+
+def _rand_ising_op(rng, n, wide=False, profile="n", zeros=False, twins=False):
     terms = []
     for _ in range(rng.randrange(1, 5)):
         k = rng.randrange(1, n + 1)
-        qs = sorted(rng.sample(range(n), k))
+        qs = rng.sample(range(n), k)  # insertion order of the term's dict is random
+        if rng.random() < 0.7:
+            qs = sorted(qs)
         if wide and rng.random() < 0.7:
             qs = sorted(set(qs) | {n + rng.randrange(0, 3)})
-        re, im = _rand_coeff(rng)
+        re, im = _rand_coeff(rng, True, profile, zeros)
         terms.append(_term(re, [(q, "Z") for q in qs], im))
     if rng.random() < 0.3:  # a constant term inside a non-constant operator
-        re, im = _rand_coeff(rng)
+        re, im = _rand_coeff(rng, True, profile, zeros)
         terms.insert(rng.randrange(len(terms) + 1), _term(re, [], im))
     if rng.random() < 0.15:  # an unsimplified duplicate
         terms.append(dict(rng.choice(terms)))
+    if twins and rng.random() < 0.3:
+        # the same support again with a coefficient that differs but has the same hash (values are never summed here)
+        src = rng.choice(terms)
+        if rng.random() < 0.5:
+            src["c"] = [rng.choice([-1, -2]), 0]
+        if unrat(src["c"][0]) != 0:
+            terms.insert(rng.randrange(len(terms) + 1), {"c": [rat(_hash_twin(unrat(src["c"][0]))), src["c"][1]], "ops": [list(o) for o in src["ops"]]})
     return terms
 
 
-def _rand_pauli_op(rng, n):
+def _rand_pauli_op(rng, n, zeros=False):
     terms = []
     for _ in range(rng.randrange(1, 4)):
         qs = sorted(rng.sample(range(n), rng.randrange(0, n + 1)))
-        re, im = _rand_coeff(rng)
+        re, im = _rand_coeff(rng, True, "n", zeros)
         terms.append(_term(re, [(q, rng.choice("XYZ")) for q in qs], im))
     return terms
 
 
-def _rand_const_op(rng):
+def _rand_const_op(rng, profile="n", zeros=False):
     k = rng.choice([0, 1, 1, 2, 3])
-    return [_term(*_rand_coeff_pair(rng)) for _ in range(k)]
-
-
-def _rand_coeff_pair(rng):
-    re, im = _rand_coeff(rng)
-    return re, [], im
+    out = []
+    for _ in range(k):
+        re, im = _rand_coeff(rng, True, profile, zeros)
+        out.append(_term(re, [], im))
+    return out
 
 
 def _rand_circuit(rng, n, basis=None, rich=False):
@@ -340,19 +579,29 @@ def _maybe_term(rng, op):
     return t
 
 
-def _rand_task(rng, kind, nmax):
+def _rand_shots(rng):
+    return rng.choice([1, 1, 2, 3, rng.randrange(1, 51), rng.randrange(1, 51), rng.randrange(1, 51)])
+
+
+def _rand_task(rng, kind, nmax, exotic=False):
+    """exotic: coefficient profiles (tiny / huge next to ordinary), zero coefficients, numpy / int number types"""
     n = rng.randrange(1, nmax + 1)
     circ = _rand_circuit(rng, n)
+    prof = _pick_profile(rng, exotic)
     if kind == "const":
-        t = _maybe_term(rng, _rand_const_op(rng))
-        t["shots"] = rng.choice([None, 0, 1, 5, -2, rng.randrange(1, 51)])
+        t = _maybe_term(rng, _rand_const_op(rng, prof, exotic))
+        t["shots"] = rng.choice([None, 0, 1, 5, -2, rng.randrange(1, 51)] + ([2 ** 53 + 1] if exotic else []))
     elif kind == "zero":
-        op = _rand_ising_op(rng, n) if rng.random() < 0.7 else [x for x in _rand_pauli_op(rng, n) if x["ops"]] or [_term(1, [(0, "X")])]
+        op = _rand_ising_op(rng, n, profile=prof, zeros=exotic) if rng.random() < 0.7 else \
+            [x for x in _rand_pauli_op(rng, n) if x["ops"]] or [_term(1, [(0, "X")])]
         t = _maybe_term(rng, op)
         t["shots"] = 0
     elif kind == "meas":
-        t = _maybe_term(rng, _rand_ising_op(rng, n))
-        t["shots"] = rng.randrange(1, 51)
+        if _prepared_bits(circ) is None:
+            prof = "n"  # sampled means are compared with a tolerance: ordinary magnitudes only
+        t = _maybe_term(rng, _rand_ising_op(rng, n, profile=prof, zeros=exotic,
+                                            twins=exotic and _prepared_bits(circ) is not None))
+        t["shots"] = _rand_shots(rng)
     else:  # malformed
         which = rng.choice(["none", "neg", "nonising", "wide", "free"])
         t = _maybe_term(rng, _rand_ising_op(rng, n, wide=(which == "wide")))
@@ -366,11 +615,13 @@ def _rand_task(rng, kind, nmax):
             t.pop("term", None)
         elif which == "free":
             circ = _circ(n, circ["gates"] + [["RX", rng.randrange(n), {"const": 0, "terms": [["theta", 1]]}]])
+    if exotic and kind != "bad" and rng.random() < 0.3:
+        t["num"] = rng.choice(["np", "int"])
     t["circuit"] = circ
     return t
 
 
-def _rand_tasks(rng, nmax, malformed):
+def _rand_tasks(rng, nmax, malformed, exotic=False):
     k = rng.choice([0, 1, 2, 3, 3, 4, 5, 6, 8])
     kinds = [rng.choice(["const", "zero", "meas", "meas"]) for _ in range(k)]
     if k >= 3 and rng.random() < 0.7:
@@ -379,10 +630,260 @@ def _rand_tasks(rng, nmax, malformed):
     if malformed and k:
         for _ in range(rng.choice([1, 1, 2])):
             kinds[rng.randrange(k)] = "bad"
-    tasks = [_rand_task(rng, kd, nmax) for kd in kinds]
+    tasks = [_rand_task(rng, kd, nmax, exotic) for kd in kinds]
     if k >= 2 and rng.random() < 0.15:  # the same task twice
         tasks[rng.randrange(k)] = tasks[rng.randrange(k)]
     return tasks
+
+
+# ------------------------------------------------------------------ siblings: exactly one component differs
+def _sibling(rng, t, nmax, ising=True):
+    """a copy of the well-formed task t in which exactly ONE component is different (or none: 'same')"""
+    import copy
+    s = copy.deepcopy(t)
+    n, op = s["circuit"]["n"], s["op"]
+    moves = ["flip", "shots", "same", "term-add"]
+    if op:
+        moves += ["coef-eps", "coef-eps", "coef-neg", "coef-new"]
+        if ising and _prepared_bits(s["circuit"]) is not None and not _is_const(s):
+            moves.append("coef-twin")
+    if len(op) >= 2:
+        moves += ["term-drop", "term-order"]
+    if len(op) == 1:
+        moves.append("termflag")
+    if any(term["ops"] and len(term["ops"]) < n for term in op):
+        moves += ["qubit", "qubit"]
+    if n < nmax:
+        moves.append("width")
+    if any(g[0] == "X" for g in s["circuit"]["gates"]) and n >= 2:
+        moves.append("gate-move")
+    mv = rng.choice(moves)
+    if mv == "coef-eps":  # within every tolerance of ==, hash and np.isclose
+        term = rng.choice(op)
+        c0 = unrat(term["c"][0])
+        # 2^-30 is below every tolerance of ==, hash and np.isclose; 2^-24 is visible at the 1e-9 of the exact values
+        eps = Fraction(rng.choice([1, -1, 3]), 2 ** (30 if ising and rng.random() < 0.5 else 24))
+        eps *= abs(c0) if abs(c0) >= 1024 else 1  # stays exact in doubles
+        term["c"][0] = rat(c0 + eps)
+    elif mv == "coef-twin":  # same hash, different value (only where values are exact: basis states, no sums)
+        term = rng.choice([x for x in op if x["ops"]])
+        c0 = unrat(term["c"][0])
+        if c0 == 0 or rng.random() < 0.3:
+            c0 = Fraction(rng.choice([-1, -2]))
+        term["c"][0] = rat(_hash_twin(c0))
+    elif mv == "coef-neg":
+        term = rng.choice(op)
+        term["c"] = [rat(-unrat(term["c"][0])), rat(-unrat(term["c"][1]))]
+    elif mv == "coef-new":
+        term = rng.choice(op)
+        re, im = _rand_coeff(rng, False)
+        term["c"] = [rat(re), rat(im)]
+    elif mv == "term-drop":
+        op.pop(rng.randrange(len(op)))
+        s.pop("term", None)
+    elif mv == "term-order":
+        op.reverse()
+    elif mv == "term-add":
+        re, im = _rand_coeff(rng, False)
+        qs = sorted(rng.sample(range(n), rng.randrange(0, n + 1)))
+        op.insert(rng.randrange(len(op) + 1), _term(re, [(q, "Z" if ising else rng.choice("XYZ")) for q in qs], im))
+        s.pop("term", None)
+    elif mv == "termflag":
+        if s.get("term"):
+            s.pop("term")
+        else:
+            s["term"] = True
+    elif mv == "qubit":
+        term = rng.choice([x for x in op if x["ops"] and len(x["ops"]) < n])
+        used = {q for q, _ in term["ops"]}
+        j = rng.randrange(len(term["ops"]))
+        term["ops"][j] = [rng.choice([q for q in range(n) if q not in used]), term["ops"][j][1]]
+    elif mv == "flip":
+        s["circuit"]["gates"].append(["X", rng.randrange(n)])
+    elif mv == "gate-move":
+        g = rng.choice([g for g in s["circuit"]["gates"] if g[0] == "X"])
+        g[1] = rng.choice([q for q in range(n) if q != g[1]])
+    elif mv == "width":
+        s["circuit"]["n"] = n + 1
+    elif mv == "shots":
+        if s["shots"] is not None or not _is_const(s):
+            s["shots"] = rng.choice([0, 1, 2, _rand_shots(rng)])
+    return s
+
+
+def _sibling_tasks(rng, nmax, ising=True, kmax=6):
+    """a task list grown from one task by single-component changes (chain or star), plus sometimes a constant and a
+    zero-shot task; equal descriptions may become one object (share)"""
+    n = rng.randrange(1, nmax + 1)
+    if ising:
+        base = _rand_task(rng, "meas", n, exotic=rng.random() < 0.3)
+        if rng.random() < 0.7:
+            base["circuit"] = _rand_circuit(rng, base["circuit"]["n"], basis=True)
+        base.pop("num", None)
+    else:
+        base = _maybe_term(rng, _rand_pauli_op(rng, n))
+        base["circuit"] = _rand_circuit(rng, n, basis=rng.random() < 0.3, rich=True)
+        base["shots"] = rng.choice([None, 0, 10])
+    tasks = [base]
+    for _ in range(rng.randrange(1, kmax)):
+        tasks.append(_sibling(rng, rng.choice([tasks[-1], tasks[0]]), nmax, ising))
+    if ising and rng.random() < 0.5:
+        tasks.insert(rng.randrange(len(tasks) + 1), _rand_task(rng, "const", nmax))
+        z = _sibling(rng, rng.choice(tasks[:1]), nmax)
+        z["shots"] = 0
+        tasks.insert(rng.randrange(len(tasks) + 1), z)
+        if rng.random() < 0.5:  # a second zero-shot task / the same constant again
+            z2 = _sibling(rng, z, nmax)
+            z2["shots"] = 0
+            tasks.insert(rng.randrange(len(tasks) + 1), z2)
+    if rng.random() < 0.4:
+        rng.shuffle(tasks)
+    return tasks, rng.choice(["none", "circuits", "ops", "both", "tasks"])
+
+
+def _long_case(rng):
+    """a list longer than any batch / chunk size a runner might use (65..140 tasks), small basis-state circuits"""
+    n = rng.randrange(1, 4)
+    protos = [_rand_task(rng, kd, n) for kd in ("meas", "meas", "meas", "const", "zero")]
+    for p in protos[:3]:
+        p["circuit"] = _rand_circuit(rng, p["circuit"]["n"], basis=True)
+        p["shots"] = rng.randrange(1, 6)
+    tasks = []
+    for _ in range(rng.randrange(65, 141)):
+        tasks.append(_sibling(rng, rng.choice(protos[:3]), n) if rng.random() < 0.85 else rng.choice(protos[3:]))
+    return {"kind": "averaging", "seed": rng.randrange(2 ** 31), "tasks": tasks, "share": rng.choice(["none", "circuits", "both"])}
+
+
+def _classical_case(rng, nmax):
+    """basis states prepared with CNOT / SWAP / CZ next to X (oracle-only: the model's circuits are product circuits)"""
+    tasks = []
+    for _ in range(rng.randrange(1, 4)):
+        n = rng.randrange(2, nmax + 1)
+        gates = [["X", q] for q in range(n) if rng.random() < 0.6]
+        for _ in range(rng.randrange(1, 4)):
+            a, b = rng.sample(range(n), 2)
+            gates.append([rng.choice(TWOQ), [a, b]])
+            if rng.random() < 0.4:
+                gates.append([rng.choice(["X", "Z", "S"]), rng.randrange(n)])
+        t = _maybe_term(rng, _rand_ising_op(rng, n, profile=_pick_profile(rng), zeros=True))
+        t["circuit"], t["shots"] = _circ(n, gates), _rand_shots(rng)
+        tasks.append(t)
+    return {"kind": "averaging", "seed": rng.randrange(2 ** 31), "tasks": tasks, "nomodel": True}
+
+
+def _exactx_case(rng, nmax):
+    """exact values for entangled states and numeric rotations (oracle-only)"""
+    tasks = []
+    for _ in range(rng.randrange(1, 4)):
+        n = rng.randrange(2, nmax + 1)
+        gates = []
+        for _ in range(rng.randrange(2, 7)):
+            r = rng.random()
+            if r < 0.35:
+                a, b = rng.sample(range(n), 2)
+                gates.append([rng.choice(TWOQ), [a, b]])
+            elif r < 0.65:
+                gates.append([rng.choice(PARAM), rng.randrange(n), {"const": rat(Fraction(rng.randrange(-16, 17), 4)), "terms": []}])
+            else:
+                gates.append([rng.choice(["H", "H", "X", "Y", "S", "T"]), rng.randrange(n)])
+        t = _maybe_term(rng, _rand_pauli_op(rng, n, zeros=True))
+        t["circuit"], t["shots"] = _circ(n, gates), rng.choice([None, 0, 10])
+        tasks.append(t)
+    if len(tasks) >= 2 and rng.random() < 0.5:  # the same circuit with one rotation angle changed
+        import copy
+        t2 = copy.deepcopy(tasks[0])
+        rot = [g for g in t2["circuit"]["gates"] if g[0] in PARAM]
+        if rot:
+            g = rng.choice(rot)
+            g[2]["const"] = rat(unrat(g[2]["const"]) + Fraction(rng.choice([1, -1, 2]), 4))
+            tasks[1] = t2
+    return {"kind": "exact", "tasks": tasks, "nomodel": True, "share": rng.choice(["none", "ops", "both"])}
+
+
+def _pipeline_case(rng, nmax):
+    """parameter scan: symbolic rotations by (integer * symbol) * pi, every task bound with its own integer map, then
+    estimated and evaluated exactly on ONE simulator; often all tasks hold one circuit object"""
+    syms = ["a", "b", "c"]
+    k = rng.randrange(2, 6)
+    n = rng.randrange(1, nmax + 1)
+
+    def circuit():
+        gates = []
+        for q in range(n):
+            r = rng.random()
+            if r < 0.6:
+                ss = rng.sample(syms, rng.randrange(1, 3))
+                gates.append([rng.choice(["RX", "RY", "RX", "RZ", "PHASE"]), q,
+                              {"const": rng.choice([0, 0, 1]), "terms": sorted([s, rng.choice([1, 1, 2, 3, -1])] for s in ss)}])
+            elif r < 0.8:
+                gates.append([rng.choice(["X", "Z", "Y"]), q])
+        return _circ(n, gates)
+    shared = rng.random() < 0.6
+    c0 = circuit()
+    tasks = []
+    for _ in range(k):
+        t = _rand_task(rng, rng.choice(["meas", "meas", "meas", "const", "zero"]), n)
+        if not _is_const(t):
+            t = dict(_maybe_term(rng, _rand_ising_op(rng, n)), shots=t["shots"])
+        t["circuit"] = c0 if shared else circuit()
+        if t["shots"] is not None and t["shots"] < 0:
+            t["shots"] = 3
+        tasks.append(t)
+    maps = [[[s, rng.randrange(-3, 4)] for s in syms]]
+    while len(maps) < k:  # the next map differs from the one before in one value, a swap of two values, or the key order
+        m = [list(e) for e in maps[-1]]
+        r = rng.random()
+        if r < 0.5:
+            e = rng.choice(m)
+            e[1] = e[1] + rng.choice([1, -1, 3])
+        elif r < 0.8:
+            i, j = rng.sample(range(len(m)), 2)
+            m[i][1], m[j][1] = m[j][1], m[i][1]
+        else:
+            rng.shuffle(m)
+        maps.append(m)
+    if rng.random() < 0.15:
+        maps = maps[:1]
+    return {"kind": "pipeline", "seed": rng.randrange(2 ** 31), "tasks": tasks, "maps": maps, "pi": True,
+            "share": "circuits" if shared else "none"}
+
+
+def _session_case(rng, nmax):
+    """2-4 calls on the same simulator and the same objects; consecutive calls differ in one task (replaced by a
+    sibling), in the order of two tasks, or in the entry point"""
+    import copy
+    kind = rng.choice(["averaging", "averaging", "exact", "nonmeasured", "split"])
+    if kind == "nonmeasured":
+        tasks = [_rand_task(rng, rng.choice(["const", "zero"]), nmax) for _ in range(rng.randrange(1, 5))]
+        for t in tasks:
+            if t["shots"] is not None and t["shots"] < 0:
+                t["shots"] = 0
+    else:
+        tasks, _ = _sibling_tasks(rng, nmax, ising=kind != "exact", kmax=4)
+    steps = [{"kind": kind, "tasks": tasks}]
+    for _ in range(rng.randrange(1, 4)):
+        prev = steps[-1]["tasks"]
+        nxt, k2 = list(prev), kind
+        r = rng.random()
+        if r < 0.55 and prev:
+            i = rng.randrange(len(prev))
+            sib = _sibling(rng, prev[i], nmax, ising=kind != "exact")
+            if kind == "nonmeasured" and _kind(sib) not in ("const", "zero"):
+                sib["shots"] = 0
+            nxt[i] = sib
+        elif r < 0.7 and len(prev) >= 2:
+            i, j = rng.sample(range(len(prev)), 2)
+            nxt[i], nxt[j] = nxt[j], nxt[i]
+        elif r < 0.85 and kind in ("averaging", "exact"):
+            k2 = "exact" if steps[-1]["kind"] == "averaging" else "averaging"
+            if k2 == "averaging" and any(_kind(t) == "bad" for t in prev):
+                k2 = steps[-1]["kind"]
+        step = {"kind": k2 if r >= 0.7 else steps[-1]["kind"], "tasks": nxt}
+        if rng.random() < 0.3:
+            step["again"] = True
+        steps.append(step)
+    return {"kind": "session", "seed": rng.randrange(2 ** 31), "steps": steps,
+            "share": rng.choice(["both", "both", "tasks", "circuits", "ops"])}
 
 
 def _rand_param(rng, syms):
@@ -415,9 +916,11 @@ def _rand_bind_case(rng, nmax):
         nm = k + rng.randrange(1, 3)
     elif r < 0.30:
         nm = 1  # a single map for every task
+    # keys: plain symbols, sometimes a symbol of the same NAME that is a different symbol (assumptions / Dummy)
+    keys = syms + ["unused"] + (["a|real", "b|dummy", "t0|real"] if rng.random() < 0.3 else [])
     maps = []
     for _ in range(nm):
-        ss = rng.sample(syms + ["unused"], rng.randrange(0, 5))
+        ss = rng.sample(keys, rng.randrange(0, 5))
         maps.append([[s, rat(Fraction(rng.randrange(-8, 9), 4))] for s in ss])
     case = {"kind": "bind", "tasks": tasks, "maps": maps}
     if k >= 2 and rng.random() < 0.4:
@@ -427,15 +930,36 @@ def _rand_bind_case(rng, nmax):
             t["circuit"] = copy.deepcopy(tasks[0]["circuit"])
         case["share_circuits"] = True
         if nm == k:
-            case["maps"] = [[[s2, rat(Fraction(rng.randrange(-8, 9), 4))] for s2 in syms] for _ in range(k)]
+            ms = [[[s2, rat(Fraction(rng.randrange(-8, 9), 4))] for s2 in syms]]
+            while len(ms) < k:  # sibling maps: one value changed / two values exchanged / key order changed / same
+                m = [list(e) for e in ms[-1]]
+                r2 = rng.random()
+                if r2 < 0.4:
+                    rng.choice(m)[1] = rat(Fraction(rng.randrange(-8, 9), 4))
+                elif r2 < 0.75:
+                    i, j = rng.sample(range(len(m)), 2)
+                    m[i][1], m[j][1] = m[j][1], m[i][1]
+                elif r2 < 0.9:
+                    rng.shuffle(m)
+                ms.append(m)
+            case["maps"] = ms
+    if rng.random() < 0.3:
+        case["mapnum"] = rng.choice(["int", "sympy", "sympyfloat"])
+    if rng.random() < 0.4:
+        case["again"] = True
     return case
 
 
-def _wide_case(rng):
-    """basis-state tasks on 13..22 qubits whose operators hold supports differing only in digit grouping"""
+_WIDE_BANDS = ((9, 13), (13, 23), (60, 71))
+
+
+def _wide_case(rng, band=None):
+    """basis-state tasks on 9..12, 13..22 or 60..70 qubits whose operators hold supports differing only in digit
+    grouping (Z1*Z2 next to Z12) and supports that are each other's mirror image"""
+    lo, hi = band or _WIDE_BANDS[1]
     tasks = []
     for _ in range(rng.randrange(1, 4)):
-        n = rng.randrange(13, 23)
+        n = rng.randrange(lo, hi)
         flips = rng.sample(range(n), rng.randrange(1, 6))
         a, b = rng.randrange(1, 3), rng.randrange(0, 10)
         op = []
@@ -444,7 +968,10 @@ def _wide_case(rng):
             if 10 * a + b not in flips:
                 flips.append(10 * a + b)
         for _ in range(rng.randrange(1, 3)):
-            op.append(_term(rng.randrange(-4, 5) or 1, [(q, "Z") for q in rng.sample(range(n), rng.randrange(1, 4))]))
+            qs = rng.sample(range(n), rng.randrange(1, 4))
+            op.append(_term(rng.randrange(-4, 5) or 1, [(q, "Z") for q in qs]))
+            if rng.random() < 0.5:  # the mirrored support (qubit q <-> n-1-q)
+                op.append(_term(rng.randrange(1, 5), [(n - 1 - q, "Z") for q in qs]))
         rng.shuffle(op)
         tasks.append({"op": op, "circuit": _circ(n, [["X", q] for q in flips]), "shots": rng.randrange(1, 9)})
     return {"kind": "averaging", "tasks": tasks, "seed": 0, "runner": "stub"}
@@ -453,100 +980,296 @@ def _wide_case(rng):
 def generate(rng, tier):
     big = tier == "thorough"
     nmax = 5 if big else 4
+    mult = 8 if big else 1
     cases = []
     for _ in range(3000 if big else 300):
-        cases.append({"kind": "averaging", "seed": rng.randrange(2 ** 31), "tasks": _rand_tasks(rng, nmax, rng.random() < 0.2)})
+        exotic = rng.random() < 0.35
+        c = {"kind": "averaging", "seed": rng.randrange(2 ** 31), "tasks": _rand_tasks(rng, nmax, rng.random() < 0.2, exotic)}
+        if rng.random() < 0.3:
+            c["again"] = True
+        cases.append(c)
+    for _ in range(70 * mult):
+        tasks, share = _sibling_tasks(rng, nmax)
+        c = {"kind": "averaging", "seed": rng.randrange(2 ** 31), "tasks": tasks, "share": share}
+        if rng.random() < 0.3:
+            c["again"] = True
+        cases.append(c)
     for _ in range(800 if big else 100):
         k = rng.choice([0, 1, 2, 3, 4])
         tasks = []
         for _ in range(k):
             n = rng.randrange(1, nmax + 1)
-            op = _rand_pauli_op(rng, n) if rng.random() < 0.75 else _rand_ising_op(rng, n, wide=rng.random() < 0.3)
+            op = _rand_pauli_op(rng, n, zeros=True) if rng.random() < 0.75 else _rand_ising_op(rng, n, wide=rng.random() < 0.3)
             if rng.random() < 0.1:
                 op = _rand_const_op(rng)
             t = _maybe_term(rng, op)
             t["circuit"] = _rand_circuit(rng, n, basis=rng.random() < 0.3, rich=True)
             t["shots"] = rng.choice([None, 0, 10])
             tasks.append(t)
-        cases.append({"kind": "exact", "tasks": tasks})
+        c = {"kind": "exact", "tasks": tasks}
+        if rng.random() < 0.3:
+            c["again"] = True
+        cases.append(c)
+    for _ in range(30 * mult):
+        tasks, share = _sibling_tasks(rng, nmax, ising=False)
+        cases.append({"kind": "exact", "tasks": tasks, "share": share})
+    for _ in range(30 * mult):
+        cases.append(_exactx_case(rng, nmax))
     for _ in range(800 if big else 100):
-        cases.append({"kind": "split", "tasks": _rand_tasks(rng, nmax, rng.random() < 0.3)})
+        exotic = rng.random() < 0.35
+        if rng.random() < 0.25:
+            tasks, share = _sibling_tasks(rng, nmax)
+            cases.append({"kind": "split", "tasks": tasks, "share": share, "again": True})
+        else:
+            cases.append({"kind": "split", "tasks": _rand_tasks(rng, nmax, rng.random() < 0.3, exotic), "again": rng.random() < 0.5})
     for _ in range(400 if big else 60):
         k = rng.randrange(0, 6)
-        tasks = [_rand_task(rng, rng.choice(["const", "zero", "const", "zero", "meas" if rng.random() < 0.15 else "zero"]), nmax) for _ in range(k)]
-        cases.append({"kind": "nonmeasured", "tasks": tasks})
+        exotic = rng.random() < 0.4
+        tasks = [_rand_task(rng, rng.choice(["const", "zero", "const", "zero", "meas" if rng.random() < 0.15 else "zero"]), nmax, exotic) for _ in range(k)]
+        c = {"kind": "nonmeasured", "tasks": tasks}
+        if rng.random() < 0.5:
+            c["again"] = True
+        if rng.random() < 0.3:
+            c["share"] = "ops"
+        cases.append(c)
     for _ in range(800 if big else 100):
         cases.append(_rand_bind_case(rng, nmax))
+    for _ in range(20 * mult):
+        cases.append(_classical_case(rng, nmax))
+    for _ in range(40 * mult):
+        cases.append(_pipeline_case(rng, nmax))
+    for _ in range(40 * mult):
+        cases.append(_session_case(rng, nmax))
+    for _ in range(12 if big else 3):
+        cases.append(_long_case(rng))
     cases += _gen_wide(rng, tier)
     return cases
 
 
 def _gen_wide(rng, tier):
-    return [_wide_case(rng) for _ in range(40 if tier == "thorough" else 8)]
+    return [_wide_case(rng, _WIDE_BANDS[i % 3]) for i in range(45 if tier == "thorough" else 12)]
 
 
 def nontrivial(c):
     k = c["kind"]
+    if k == "session":
+        return len(c["steps"]) >= 2 and any(nontrivial(st) or len(st["tasks"]) >= 2 for st in c["steps"])
     kinds = {_kind(t) for t in c["tasks"]}
     if k in ("averaging", "split"):
-        return {"const", "zero", "meas"} <= kinds
+        return {"const", "zero", "meas"} <= kinds or (len(c["tasks"]) >= 3 and "meas" in kinds and bool(c.get("share") or c.get("runner")))
     if k == "exact":
         return len(c["tasks"]) >= 2 and any(p in "XY" for t in c["tasks"] for term in t["op"] for _, p in term["ops"])
     if k == "nonmeasured":
         return {"const", "zero"} <= kinds
-    if k == "bind":
+    if k in ("bind", "pipeline"):
         ms = [common.canon(m) for m in c["maps"]]
         return len(c["tasks"]) >= 2 and ((len(ms) == len(c["tasks"]) and len(set(ms)) == len(ms)) or len(ms) == 1)
     return False
 
 
 # ----------------------------------------------------------------------------------------------- implementation
-def run_impl(c):
+def _snapshot(tasks):
+    return [(id(t), type(t.operator).__name__, common.canon(_canon_op(t.operator)), common.canon(_canon_circuit(t.circuit)),
+             None if t.number_of_shots is None else int(t.number_of_shots)) for t in tasks]
+
+
+def _changed(lst, objs, snap):
+    """None, or what happened to the caller's task list / tasks during the call"""
+    if len(lst) != len(objs) or any(x is not y for x, y in zip(lst, objs)):
+        return f"the caller's task list was modified (now {len(lst)} entries, {len(objs)} passed in)"
+    for i, (x, y) in enumerate(zip(snap, _snapshot(lst))):
+        if x != y:
+            return f"the caller's task {i} was modified"
+    return None
+
+
+def _aliased(res):
+    """pairs of positions whose results are one object / share their value array"""
+    import numpy as np
+    out = []
+    for i in range(len(res)):
+        for j in range(i):
+            x, y = res[j], res[i]
+            if x is None or y is None:
+                continue
+            if x is y or (isinstance(x.values, np.ndarray) and isinstance(y.values, np.ndarray)
+                          and np.shares_memory(x.values, y.values)):
+                out.append([j, i])
+                if len(out) >= 5:
+                    return out
+    return out
+
+
+def _scribble(res):
+    """what a caller may do with results it owns: overwrite the arrays in place, empty the list"""
+    import numpy as np
+    for r in list(res):
+        if r is None:
+            continue
+        arrays = [getattr(r, "values", None)] + list(getattr(r, "correlations", None) or []) \
+            + list(getattr(r, "estimator_covariances", None) or [])
+        for arr in arrays:
+            if isinstance(arr, np.ndarray):
+                try:
+                    arr[...] = SCRIBBLE
+                except (ValueError, TypeError):
+                    pass
+    if isinstance(res, list):
+        res.clear()
+
+
+class _Ctx:
+    """the long-lived objects of one case (or of all steps of a session): object pool, one simulator, one recorder"""
+
+    def __init__(self, c):
+        self.pool = _Pool(c.get("share") or ("circuits" if c.get("share_circuits") else None), pi=bool(c.get("pi")))
+        self.seed, self.stub = c.get("seed", 0), c.get("runner") == "stub"
+        self._sim = self._rec = None
+
+    def sim(self):
+        if self._sim is None:
+            self._sim = _lib()[6](seed=self.seed)
+        return self._sim
+
+    def rec(self):
+        if self._rec is None:
+            self._rec = _Recorder(_stub_runner() if self.stub else self.sim())
+        return self._rec
+
+
+def _build_maps(c):
+    mapnum = c.get("mapnum", "py")
+    return [{_mk_symbol(s): _mk_value(v, mapnum, bool(c.get("pi"))) for s, v in m} for m in c["maps"]]
+
+
+def _snap_maps(maps):
+    return [(id(m), [(_sym_name(k), rat(Fraction(float(v)))) for k, v in m.items()]) for m in maps]
+
+
+def _call(c, ctx):
+    """one step: the call named by c['kind'] on c['tasks'] (made twice on the same objects if c['again'])"""
     sympy, C, EstimationTask, E, PauliSum, PauliTerm, SymbolicSimulator = _lib()
     k = c["kind"]
-    # identical JSON tasks (same dict object) are built once, so that "the same task twice" is the same object
-    built, tasks, shared = {}, [], ({} if c.get("share_circuits") else None)
-    for t in c["tasks"]:
-        if id(t) not in built:
-            built[id(t)] = _build_task(t, shared)
-        tasks.append(built[id(t)])
-    try:
+    tasks = [ctx.pool.task(t) for t in c["tasks"]]
+    objs, snap = tuple(tasks), None
+    maps = msnap = mobjs = None
+    if k == "bind":
+        maps = _build_maps(c)
+        mobjs, msnap = tuple(maps), _snap_maps(maps)
+
+    def once():
         if k == "averaging":
-            rec = _Recorder(_stub_runner() if c.get("runner") == "stub" else SymbolicSimulator(seed=c["seed"]))
+            rec = ctx.rec()
+            rec.reset()
             try:
                 res = E.estimate_expectation_values_by_averaging(rec, tasks)
             except Exception as e:
                 out = _err(e)
                 out["recorded"] = rec.recorded
                 return out
-            return {"res": [None if r is None else [_cval(v) for v in r.values] for r in res],
-                    "recorded": rec.recorded, "requests": rec.requests}
+            out = {"res": [None if r is None else [_cval(v) for v in r.values] for r in res],
+                   "recorded": rec.recorded, "requests": rec.requests, "runs": rec.runs_for(objs),
+                   "aliased": _aliased(res)}
+            if c.get("again"):
+                _scribble(res)
+            return out
         if k == "exact":
-            res = E.calculate_exact_expectation_values(SymbolicSimulator(seed=0), tasks)
-            return {"res": [[float(v) for v in r.values] for r in res]}
+            res = E.calculate_exact_expectation_values(ctx.sim(), tasks)
+            out = {"res": [[float(v) for v in r.values] for r in res], "aliased": _aliased(res)}
+            if c.get("again"):
+                _scribble(res)
+            return out
         if k == "split":
             m, nm, im, inm = E.split_estimation_tasks_to_measure(tasks)
 
             def ids(sub, idx):
                 # identity of the returned task with the task at the remembered index
-                return [i if i < len(tasks) and s is tasks[i] else -1 for s, i in zip(sub, idx)]
-            return {"to_measure": ids(m, im), "not_to_measure": ids(nm, inm), "idx_measure": [int(i) for i in im],
-                    "idx_not": [int(i) for i in inm], "len_m": len(m), "len_nm": len(nm)}
+                return [i if i < len(objs) and s is objs[i] else -1 for s, i in zip(sub, idx)]
+            out = {"to_measure": ids(m, im), "not_to_measure": ids(nm, inm), "idx_measure": [int(i) for i in im],
+                   "idx_not": [int(i) for i in inm], "len_m": len(m), "len_nm": len(nm)}
+            for lst in (m, nm, im, inm):  # the caller owns the four returned lists
+                if isinstance(lst, list) and c.get("again"):
+                    lst.clear()
+            return out
         if k == "nonmeasured":
             res = E.evaluate_non_measured_estimation_tasks(tasks)
-            return {"res": [[_cval(v) for v in r.values] for r in res]}
+            out = {"res": [[_cval(v) for v in r.values] for r in res], "aliased": _aliased(res)}
+            if c.get("again"):
+                _scribble(res)
+            return out
         if k == "bind":
-            maps = [{sympy.Symbol(s): float(unrat(v)) for s, v in m} for m in c["maps"]]
-            before = [_canon_circuit(t.circuit) for t in tasks]
             res = E.evaluate_estimation_circuits(tasks, maps)
-            after = [_canon_circuit(t.circuit) for t in tasks]
-            return {"res": [{"op": _canon_op(r.operator), "circuit": _canon_circuit(r.circuit), "shots": r.number_of_shots}
-                            for r in res],
-                    "op_same": [i < len(tasks) and r.operator is tasks[i].operator for i, r in enumerate(res)],
-                    "inputs_intact": before == after}
+            out = {"res": [{"op": _canon_op(r.operator), "circuit": _canon_circuit(r.circuit),
+                            "shots": None if r.number_of_shots is None else int(r.number_of_shots)} for r in res],
+                   "op_same": [i < len(objs) and r.operator is objs[i].operator for i, r in enumerate(res)]}
+            if isinstance(res, list) and c.get("again"):
+                res.clear()
+            return out
+        raise AssertionError("unknown kind")
+
+    def guarded():
+        nonlocal snap
+        snap = _snapshot(tasks)
+        try:
+            out = once()
+        except Exception as e:
+            out = _err(e)
+        out["inputs"] = _changed(tasks, objs, snap)
+        out["inputs_intact"] = out["inputs"] is None
+        if maps is not None:
+            bad = None
+            if len(maps) != len(mobjs) or any(x is not y for x, y in zip(maps, mobjs)):
+                bad = f"the caller's list of symbol maps was modified (now {len(maps)} entries, {len(mobjs)} passed in)"
+            elif _snap_maps(maps) != msnap:
+                bad = "a symbol map passed in was modified"
+            out["maps"] = bad
+        return out
+
+    out = guarded()
+    if c.get("again"):
+        out["again"] = guarded()
+    return out
+
+
+def _run_pipeline(c, ctx):
+    """bind (each task its own map) -> estimate by averaging -> exact values, all on one simulator"""
+    sympy, C, EstimationTask, E, PauliSum, PauliTerm, SymbolicSimulator = _lib()
+    tasks = [ctx.pool.task(t) for t in c["tasks"]]
+    maps = _build_maps(c)
+    try:
+        bound = E.evaluate_estimation_circuits(tasks, maps)
     except Exception as e:
         return _err(e)
-    raise AssertionError("unknown kind")
+    out = {"bound": len(bound)}
+    rec = ctx.rec()
+    rec.reset()
+    try:
+        res = E.estimate_expectation_values_by_averaging(rec, bound)
+        out["avg"] = [None if r is None else [_cval(v) for v in r.values] for r in res]
+    except Exception as e:
+        out["avg_err"] = f"{type(e).__name__}: {e}"[:160]
+    try:
+        res = E.calculate_exact_expectation_values(ctx.sim(), bound)
+        out["exact"] = [[float(v) for v in r.values] for r in res]
+    except Exception as e:
+        out["exact_err"] = f"{type(e).__name__}: {e}"[:160]
+    return out
+
+
+def run_impl(c):
+    k = c["kind"]
+    ctx = _Ctx(c)
+    if k == "session":
+        outs = []
+        for step in c["steps"]:
+            try:
+                outs.append(_call(step, ctx) if step["kind"] != "pipeline" else _run_pipeline(step, ctx))
+            except Exception as e:  # keep the other steps' evidence
+                outs.append({"exc": type(e).__name__, "msg": str(e)[:200]})
+        return {"steps": outs}
+    if k == "pipeline":
+        return _run_pipeline(c, ctx)
+    return _call(c, ctx)
 
 
 # ----------------------------------------------------------------------------------------------- model side
@@ -554,20 +1277,40 @@ def _jtask(t):
     return {"op": t["op"], "circuit": t["circuit"], "shots": t["shots"]}
 
 
-def requests(c, out):
+def _requests_one(c, out):
     k = c["kind"]
     tasks = [_jtask(t) for t in c["tasks"]]
     if k == "averaging":
-        return [("averaging", {"tasks": tasks, "recorded": out.get("recorded", []) if isinstance(out, dict) else []})]
-    if k == "exact":
-        return [("exact", {"tasks": tasks})]
-    if k == "split":
-        return [("split", {"tasks": tasks})]
-    if k == "nonmeasured":
-        return [("nonmeasured", {"tasks": tasks})]
+        return ("averaging", {"tasks": tasks, "recorded": out.get("recorded", []) if isinstance(out, dict) else []})
     if k == "bind":
-        return [("bind", {"tasks": tasks, "maps": c["maps"]})]
-    return []
+        return ("bind", {"tasks": tasks, "maps": c["maps"]})
+    return (k, {"tasks": tasks})
+
+
+def _steps(c, out):
+    """(sub-case, its output) pairs: the case itself, its second call, or the steps of a session"""
+    if c["kind"] == "session":
+        outs = out.get("steps", []) if isinstance(out, dict) else []
+        pairs = []
+        for step, o in zip(c["steps"], outs):
+            pairs += _steps(step, o)
+        return pairs
+    pairs = [(c, out, "")]
+    if isinstance(out, dict) and isinstance(out.get("again"), dict):
+        pairs.append((c, out["again"], "@again"))
+    return pairs
+
+
+def _modelled(c):
+    if c["kind"] == "session":
+        return not c.get("nomodel") and all(_modelled(st) for st in c["steps"])
+    return c["kind"] in ("averaging", "exact", "split", "nonmeasured", "bind") and not c.get("nomodel")
+
+
+def requests(c, out):
+    if not _modelled(c):
+        return []  # oracle-only case kinds
+    return [_requests_one(sub, o) for sub, o, _ in _steps(c, out)]
 
 
 def _all_definite(c):
@@ -601,7 +1344,17 @@ def _sampler_law(c, out):
 
 
 def compare(c, out, resp):
-    r = resp[0]
+    pairs = _steps(c, out)
+    if len(pairs) != len(resp):
+        return f"{len(resp)} model answers for {len(pairs)} calls"
+    for (sub, o, tag), r in zip(pairs, resp):
+        msg = _compare_one(sub, o, r)
+        if msg:
+            return msg + (f" [{tag}]" if tag else "")
+    return None
+
+
+def _compare_one(c, out, r):
     if isinstance(r, dict) and "driver_error" in r:
         return "driver error: " + r["driver_error"]
     if isinstance(out, dict) and "exc" in out:
@@ -683,6 +1436,27 @@ def _sign(bits, qs):
     return s
 
 
+def _common_clauses(what, out):
+    """clauses every value-returning entry point shares: the call leaves the caller's tasks as they were, and every
+    task gets a result of its own (no result object / value array handed out for two positions)"""
+    if out.get("inputs"):
+        return (f"{what}-input-changed", f"{out['inputs']} (the results can no longer be those of the tasks passed in)")
+    if out.get("aliased"):
+        i, j = out["aliased"][0]
+        return ("result-shared-between-tasks", f"{what}: positions {i} and {j} hold one and the same result object/array, "
+                                               f"not one result per task (overwriting one overwrites the other)")
+    return None
+
+
+def _sample_sets(out, i, t, n_meas_before):
+    """the measurements the runner delivered for task i's circuit with task i's shot count"""
+    runs = out.get("runs")
+    if runs is not None:
+        return [r["shots"] for r in runs if i in r["tasks"] and r["n"] == t["shots"] and r["shots"]]
+    rec = out.get("recorded", [])
+    return [rec[n_meas_before]] if n_meas_before < len(rec) and rec[n_meas_before] else []
+
+
 def _oracle_averaging(c, out):
     tasks = c["tasks"]
     kinds = [_kind(t) for t in tasks]
@@ -693,9 +1467,8 @@ def _oracle_averaging(c, out):
     res = out["res"]
     if len(res) != len(tasks):
         return ("averaging-count", f"{len(res)} results for {len(tasks)} tasks")
-    rec = iter(out.get("recorded", []))
+    n_meas = 0
     for i, (t, kd, r) in enumerate(zip(tasks, kinds, res)):
-        shots = next(rec, None) if kd == "meas" else None
         if r is None:
             return ("averaging-missing", f"no result at position {i} ({kd} task)")
         if kd == "const":
@@ -709,37 +1482,77 @@ def _oracle_averaging(c, out):
             if len(r) != len(t["op"]):
                 return ("term-count", f"task {i}: {len(r)} values for {len(t['op'])} terms")
             bits = _prepared_bits(t["circuit"])
-            for j, (term, v) in enumerate(zip(t["op"], r)):
-                cre, cim = unrat(term["c"][0]), unrat(term["c"][1])
-                qs = [q for q, _ in term["ops"]]
-                if bits is not None:
-                    lam = _sign(bits, qs)
+            if bits is not None:
+                for j, (term, v) in enumerate(zip(t["op"], r)):
+                    cre, cim = unrat(term["c"][0]), unrat(term["c"][1])
+                    lam = _sign(bits, [q for q, _ in term["ops"]])
                     good = _eq_exact(v, cre * lam) or (cim != 0 and _eq_exact(v, cre * lam, cim * lam))
                     if not good:
                         return ("basis-state-value", f"task {i} term {j}: basis state {bits}, coefficient {cre}+{cim}j, "
                                                      f"eigenvalue {lam}, value {v} (shots {t['shots']})")
-                else:
-                    if not shots:
-                        return None  # nothing recorded to recompute from
-                    mean = Fraction(sum(_sign(s, qs) for s in shots), len(shots))
-                    good = _near(v, cre * mean) or (cim != 0 and _near(v, cre * mean, cim * mean))
-                    if not good:
-                        return ("weighted-mean", f"task {i} term {j}: coefficient {cre}, sample mean {mean}, value {v}")
-    return None
+            else:
+                # a sampled circuit: the weighted mean over a set of measurements the runner delivered for this
+                # circuit and this shot count (nothing to recompute from -> no verdict on this task)
+                sets = _sample_sets(out, i, t, n_meas)
+                bad = None
+                for shots in sets:
+                    bad = None
+                    for j, (term, v) in enumerate(zip(t["op"], r)):
+                        cre, cim = unrat(term["c"][0]), unrat(term["c"][1])
+                        mean = Fraction(sum(_sign(s, [q for q, _ in term["ops"]]) for s in shots), len(shots))
+                        if not (_near(v, cre * mean) or (cim != 0 and _near(v, cre * mean, cim * mean))):
+                            bad = ("weighted-mean", f"task {i} term {j}: coefficient {cre}, sample mean {mean}, value {v}")
+                            break
+                    if bad is None:
+                        break
+                if bad:
+                    return bad
+            n_meas += 1
+    return _common_clauses("averaging", out)
+
+
+_R = 2 ** -0.5
+
+
+def _gate_matrix(g):
+    name = g[0]
+    if name in ("I", "X", "Y", "Z", "H", "S", "T"):
+        return {"I": [[1, 0], [0, 1]], "X": [[0, 1], [1, 0]], "Y": [[0, -1j], [1j, 0]], "Z": [[1, 0], [0, -1]],
+                "H": [[_R, _R], [_R, -_R]], "S": [[1, 0], [0, 1j]], "T": [[1, 0], [0, cmath.exp(1j * cmath.pi / 4)]]}[name]
+    if name in PARAM:
+        th = float(unrat(g[2]["const"]))
+        co, si = cmath.cos(th / 2), cmath.sin(th / 2)
+        return {"RX": [[co, -1j * si], [-1j * si, co]], "RY": [[co, -si], [si, co]],
+                "RZ": [[cmath.exp(-1j * th / 2), 0], [0, cmath.exp(1j * th / 2)]],
+                "PHASE": [[1, 0], [0, cmath.exp(1j * th)]]}[name]
+    return {"CNOT": [[1, 0, 0, 0], [0, 1, 0, 0], [0, 0, 0, 1], [0, 0, 1, 0]],
+            "CZ": [[1, 0, 0, 0], [0, 1, 0, 0], [0, 0, 1, 0], [0, 0, 0, -1]],
+            "SWAP": [[1, 0, 0, 0], [0, 0, 1, 0], [0, 1, 0, 0], [0, 0, 0, 1]]}[name]
+
+
+def _simulable(c):
+    """gates whose matrices the oracle writes down itself, all parameters numbers"""
+    for g in c["gates"]:
+        if g[0] in PARAM:
+            if len(g) < 3 or g[2] is None or g[2]["terms"]:
+                return False
+        elif not ((g[0] in FIXED or g[0] in TWOQ) and (len(g) < 3 or g[2] is None)):
+            return False
+    return True
 
 
 def _np_state(circ):
+    """state vector of the circuit from |0..0>, qubit 0 the most significant bit of the index"""
     import numpy as np
-    r = 2 ** -0.5
-    mats = {"I": [[1, 0], [0, 1]], "X": [[0, 1], [1, 0]], "Y": [[0, -1j], [1j, 0]], "Z": [[1, 0], [0, -1]],
-            "H": [[r, r], [r, -r]], "S": [[1, 0], [0, 1j]], "T": [[1, 0], [0, cmath.exp(1j * cmath.pi / 4)]]}
-    qs = [np.array([1, 0], dtype=complex) for _ in range(circ["n"])]
+    n = circ["n"]
+    psi = np.zeros((2,) * n, dtype=complex)
+    psi[(0,) * n] = 1
     for g in circ["gates"]:
-        qs[g[1]] = np.array(mats[g[0]], dtype=complex) @ qs[g[1]]
-    psi = np.array([1], dtype=complex)
-    for v in qs:  # qubit 0 is the most significant bit
-        psi = np.kron(psi, v)
-    return psi
+        qs = g[1] if isinstance(g[1], list) else [g[1]]
+        m = np.array(_gate_matrix(g), dtype=complex).reshape((2,) * (2 * len(qs)))
+        psi = np.tensordot(m, psi, axes=(list(range(len(qs), 2 * len(qs))), qs))
+        psi = np.moveaxis(psi, list(range(len(qs))), qs)
+    return psi.reshape(-1)
 
 
 def _quadratic_form(op, psi, n):
@@ -765,11 +1578,15 @@ def _quadratic_form(op, psi, n):
     return total.real
 
 
+def _exact_tol(op):
+    return 1e-9 * max(1.0, sum(abs(complex(float(unrat(t["c"][0])), float(unrat(t["c"][1])))) for t in op))
+
+
 def _oracle_exact(c, out):
     tasks = c["tasks"]
     for t in tasks:
         cc = t["circuit"]
-        if not (_fixed_only(cc) and cc["n"] >= 1 and _op_width(t) <= cc["n"]):
+        if not (_simulable(cc) and cc["n"] >= 1 and _op_width(t) <= cc["n"]):
             return None
     if "exc" in out or "err" in out:
         return ("exact-raises", f"calculate_exact_expectation_values raised on well-formed tasks: {out}")
@@ -777,9 +1594,9 @@ def _oracle_exact(c, out):
         return ("exact-count", f"{len(out['res'])} results for {len(tasks)} tasks")
     for i, (t, r) in enumerate(zip(tasks, out["res"])):
         want = _quadratic_form(t["op"], _np_state(t["circuit"]), t["circuit"]["n"])
-        if len(r) != 1 or abs(r[0] - want) > 1e-9:
+        if len(r) != 1 or abs(r[0] - want) > _exact_tol(t["op"]):
             return ("exact-value", f"task {i}: exact value {r}, quadratic form {want}")
-    return None
+    return _common_clauses("exact", out)
 
 
 def _oracle_split(c, out):
@@ -794,6 +1611,9 @@ def _oracle_split(c, out):
         return ("split-partition", f"indices {out['idx_measure']} / {out['idx_not']}, expected {m} / {notm}")
     if out["to_measure"] != m or out["not_to_measure"] != notm or out["len_m"] != len(m) or out["len_nm"] != len(notm):
         return ("split-remembered-index", "a returned task is not the task at its remembered index")
+    if out.get("inputs"):
+        return ("split-input-changed", f"{out['inputs']} after the caller emptied the four lists it was given back "
+                                       f"(the remembered indices no longer point at the tasks)")
     return None
 
 
@@ -810,7 +1630,7 @@ def _oracle_nonmeasured(c, out):
         re, im = _csum(t["op"]) if kd == "const" else (Fraction(0), Fraction(0))
         if len(r) != 1 or not _eq_exact(r[0], re, im):
             return ("constant-value" if kd == "const" else "zero-shot-value", f"task {i} ({kd}) gave {r}, expected {re}+{im}j")
-    return None
+    return _common_clauses("nonmeasured", out)
 
 
 def _bind_form(p, m):
@@ -843,7 +1663,9 @@ def _oracle_bind(c, out):
         return ("bind-maps-shorter-than-tasks" if len(res) < len(tasks) else "bind-count",
                 f"{len(tasks)} tasks and {len(c['maps'])} symbol map(s): {len(res)} tasks returned")
     if not out.get("inputs_intact", True):
-        return ("bind-mutates-input", "the input tasks' circuits were modified")
+        return ("bind-mutates-input", f"binding changed something else: {out.get('inputs') or 'the input tasks were modified'}")
+    if out.get("maps"):
+        return ("bind-mutates-maps", f"binding changed something else: {out['maps']}")
     for i, (t, m, r) in enumerate(zip(tasks, maps, res)):
         want = {"n": t["circuit"]["n"],
                 "gates": [[g[0], g[1], None if len(g) < 3 or g[2] is None else _bind_form(g[2], m)] for g in t["circuit"]["gates"]]}
@@ -854,34 +1676,129 @@ def _oracle_bind(c, out):
     return None
 
 
+def _pipeline_bits(circ, m):
+    """basis state prepared by X/Y/Z gates and rotations whose angle is (const + sum a_s*s) * pi with every symbol
+    bound to an integer: RX / RY flip the qubit iff the multiple of pi is odd; None if not such a circuit"""
+    md = {s: unrat(v) for s, v in m}
+    bits = [0] * circ["n"]
+    for g in circ["gates"]:
+        if g[0] in ("X", "Y"):
+            bits[g[1]] ^= 1
+        elif g[0] in ("Z", "S", "T", "I"):
+            pass
+        elif g[0] in PARAM and len(g) > 2 and g[2] is not None:
+            k = unrat(g[2]["const"])
+            for s, a in g[2]["terms"]:
+                if s not in md:
+                    return None
+                k += unrat(a) * md[s]
+            if k.denominator != 1:
+                return None
+            if g[0] in ("RX", "RY") and k % 2 == 1:
+                bits[g[1]] ^= 1
+        else:
+            return None
+    return bits
+
+
+def _oracle_pipeline(c, out):
+    tasks, maps = c["tasks"], c["maps"]
+    if len(maps) == 1:
+        maps = maps * len(tasks)
+    if len(maps) != len(tasks):
+        return None
+    prepared = [_pipeline_bits(t["circuit"], m) for t, m in zip(tasks, maps)]
+    kinds = []
+    for t, bits in zip(tasks, prepared):
+        if _is_const(t):
+            kinds.append("const")
+        elif t["shots"] == 0:
+            kinds.append("zero")
+        elif bits is not None and isinstance(t["shots"], int) and t["shots"] > 0 and _is_ising(t) and _op_width(t) <= t["circuit"]["n"]:
+            kinds.append("meas")
+        else:
+            return None
+    if any(b is None for b in prepared):
+        return None
+    if "exc" in out or "err" in out or "avg_err" in out or "exact_err" in out:
+        return ("pipeline-raises", f"bind -> estimate -> exact raised on well-formed tasks: {out}")
+    if out["bound"] != len(tasks) or len(out["avg"]) != len(tasks) or len(out["exact"]) != len(tasks):
+        return ("pipeline-count", f"{len(tasks)} tasks: {out['bound']} bound, {len(out['avg'])} estimated, {len(out['exact'])} exact")
+    for i, (t, kd, bits, r, ex) in enumerate(zip(tasks, kinds, prepared, out["avg"], out["exact"])):
+        if r is None:
+            return ("averaging-missing", f"no result at position {i}")
+        if kd == "const":
+            re, im = _csum(t["op"])
+            if len(r) != 1 or not _eq_exact(r[0], re, im):
+                return ("constant-value", f"constant task at position {i} gave {r}, its constant is {re}+{im}j")
+        elif kd == "zero":
+            if len(r) != 1 or not _eq_exact(r[0], Fraction(0)):
+                return ("zero-shot-value", f"zero-shot task at position {i} gave {r}, expected [0]")
+        else:
+            if len(r) != len(t["op"]):
+                return ("term-count", f"task {i}: {len(r)} values for {len(t['op'])} terms")
+            for j, (term, v) in enumerate(zip(t["op"], r)):
+                cre, cim = unrat(term["c"][0]), unrat(term["c"][1])
+                lam = _sign(bits, [q for q, _ in term["ops"]])
+                if not (_eq_exact(v, cre * lam) or (cim != 0 and _eq_exact(v, cre * lam, cim * lam))):
+                    return ("basis-state-value", f"task {i} term {j}: its circuit bound with its own map {maps[i]} prepares "
+                                                 f"{bits}, coefficient {cre}, eigenvalue {lam}, value {v}")
+        # exact value = quadratic form with the basis state = sum of Re(coefficient) * eigenvalue (Z-type terms)
+        if _is_ising(t) and _op_width(t) <= t["circuit"]["n"]:
+            want = float(sum(unrat(term["c"][0]) * _sign(bits, [q for q, _ in term["ops"]]) for term in t["op"]))
+            if len(ex) != 1 or abs(ex[0] - want) > _exact_tol(t["op"]):
+                return ("exact-value", f"task {i}: its circuit bound with its own map prepares {bits}: exact value {ex}, quadratic form {want}")
+    return None
+
+
+_ORACLES = {"averaging": _oracle_averaging, "exact": _oracle_exact, "split": _oracle_split,
+            "nonmeasured": _oracle_nonmeasured, "bind": _oracle_bind, "pipeline": _oracle_pipeline}
+
+
 def oracle(c, out):
     """the property's own sentences, on the implementation's output only"""
-    k = c["kind"]
     if not isinstance(out, dict):
         return ("no-output", "implementation produced no output")
-    if k == "averaging":
-        return _oracle_averaging(c, out)
-    if k == "exact":
-        return _oracle_exact(c, out)
-    if k == "split":
-        return _oracle_split(c, out)
-    if k == "nonmeasured":
-        return _oracle_nonmeasured(c, out)
-    if k == "bind":
-        return _oracle_bind(c, out)
+    if c["kind"] == "session" and "steps" not in out:
+        return ("session-raises", f"a sequence of calls on well-formed tasks raised: {out}")
+    n = 0
+    for sub, o, tag in _steps(c, out):
+        n += 1
+        if sub["kind"] not in _ORACLES:
+            continue
+        res = _ORACLES[sub["kind"]](sub, o)
+        if res is not None:
+            where = ""
+            if c["kind"] == "session":
+                where = f"call {n} of the sequence ({sub['kind']}, same runner and objects as the calls before): "
+            if tag:
+                where += "second identical call after the caller overwrote the first call's results: "
+            return (res[0] + tag, where + res[1])
     return None
 
 
 def distribution(cases, outs):
-    mix, lens, errs = {}, {}, {}
+    mix, lens, errs, feats = {}, {}, {}, {}
+
+    def feat(name):
+        feats[name] = feats.get(name, 0) + 1
     for c, o in zip(cases, outs):
+        subs = c["steps"] if c["kind"] == "session" else [c]
         if c["kind"] == "averaging":
             key = "+".join(sorted({_kind(t) for t in c["tasks"]})) or "empty"
             mix[key] = mix.get(key, 0) + 1
-        n = len(c["tasks"])
-        lens[n] = lens.get(n, 0) + 1
+        for sub in subs:
+            n = len(sub["tasks"])
+            lens[n] = lens.get(n, 0) + 1
+            if sub.get("again"):
+                feat("repeated_call")
+        for name in ("share", "nomodel", "runner", "mapnum"):
+            if c.get(name):
+                feat(f"{name}={c[name]}")
+        if c["kind"] != "session" and any(t.get("num") for t in c["tasks"]):
+            feat("numpy_or_int_numbers")
         if isinstance(o, dict) and o.get("err"):
             errs[o["err"]] = errs.get(o["err"], 0) + 1
     return {"averaging_task_mixtures": mix, "task_list_lengths": {str(k): v for k, v in sorted(lens.items())},
-            "error_kinds_hit": errs,
+            "error_kinds_hit": errs, "features": feats,
             "sampled_circuits": sum(1 for c in cases if c["kind"] == "averaging" and not _all_definite(c))}
